@@ -12,22 +12,34 @@ M == 1000003
 Huge == 1073741824     \* "mod" that never wraps: all values distinct
 
 (* ---- address encodings (constant level) ---- *)
-Edge == {0, 1, 2, 126, 127, 128, 129, 254, 255}
+Edge == IF Deep THEN {0, 1, 127, 128, 255} ELSE {0, 128, 255}
 Bytes == 0 .. 255
 A24(SA, SB, SC) == {a * 65536 + b * 256 + c : a \in SA, b \in SB, c \in SC}
+\* 24-bit space: every byte value in each position with the other two on sign/carry edges (quick);
+\* every pair of byte values in two positions with the third on an edge (Deep)
 Addr24 == IF Deep THEN A24(Bytes, Bytes, Edge) \cup A24(Bytes, Edge, Bytes) \cup A24(Edge, Bytes, Bytes)
-          ELSE A24(Bytes, Edge, Edge) \cup A24(Edge, Bytes, Edge) \cup A24(Edge, Edge, Bytes) \cup (0 .. 70000)
-ASSUME Int16RoundTrip(-32768 .. 32767)
-ASSUME Uint16RoundTrip(0 .. 65535)
-ASSUME Uint24RoundTrip(Addr24)
-AddressesChecked == 65536 + 65536 + Cardinality(Addr24)
-ASSUME PrintT(<<"addresses_checked", AddressesChecked>>)
+          ELSE A24(Bytes, Edge, Edge) \cup A24(Edge, Bytes, Edge) \cup A24(Edge, Edge, Bytes)
+Main == ModelPaths = "builder"      \* the main run; the auxiliary runs skip constant-level work
+A16(SA, SB) == {a * 256 + b : a \in SA, b \in SB}
+Addr16 == IF Deep THEN 0 .. 65535 ELSE A16(Bytes, Edge) \cup A16(Edge, Bytes)
+SAddr16 == IF Deep THEN -32768 .. 32767 ELSE {v - 32768 : v \in Addr16}
+ASSUME Main => Int16RoundTrip(SAddr16)
+ASSUME Main => Uint16RoundTrip(Addr16)
+ASSUME Main => Uint24RoundTrip(Addr24)
+AddressesChecked == Cardinality(SAddr16) + Cardinality(Addr16) + Cardinality(Addr24)
+ASSUME Main => PrintT(<<"addresses_checked", AddressesChecked>>)
+
+\* the call-site paths: first count at which the unit allocated last is read back as another one
+FirstUnfaithful(r) == LET S == {c \in 1 .. Capacity(r) + 4 : ~FaithfulAt(r, c)} IN
+                      IF S = {} THEN 0 ELSE CHOOSE c \in S : \A d \in S : c <= d
+ASSUME ModelPaths = "callsites" =>
+         \A r \in CallsiteResources : PrintT(<<"first_unfaithful", r[1], r[2], FirstUnfaithful(r)>>)
 
 (* ---- the sweep plan ---- *)
 \* res: program-level resource (the driver knows how to write a program needing n units of it)
 \* cap: the spec's idea of the number of units one function can hold (from the model constants)
-R(res, cap, base, step, mod, kind, locate, wide) ==
-  [res |-> res, cap |-> cap, base |-> base, step |-> step, mod |-> mod, kind |-> kind, locate |-> locate, wide |-> wide]
+R(rname, cap, base, step, mod, kind, locate, wide) ==
+  [res |-> rname, cap |-> cap, base |-> base, step |-> step, mod |-> mod, kind |-> kind, locate |-> locate, wide |-> wide]
 Plan == <<
   R("intlocals",        MaxRegisters, 1000, 1, Huge, "hash", TRUE, TRUE),
   R("floatlocals",      MaxRegisters, 1000, 1, Huge, "hash", TRUE, TRUE),
@@ -44,7 +56,7 @@ Plan == <<
   R("types",            MaxTable8,    0,    1, Huge, "hash", TRUE, TRUE),
   R("sfuncs",           MaxTable8,    1000, 1, Huge, "hash", TRUE, TRUE),
   R("nfuncs",           MaxTable8,    1000, 1, Huge, "hash", TRUE, TRUE),
-  R("fields",           MaxTable8,    1000, 1, Huge, "hash", TRUE, TRUE),
+  R("fieldwrites",      MaxTable8,    1000, 1, Huge, "hash", TRUE, TRUE),
   R("fieldreads",       MaxTable8,    1000, 1, Huge, "hash", TRUE, TRUE),
   R("selectcases",      65536,        1000, 1, 9973, "single", TRUE, FALSE),
   R("jumps",            MaxValues14,  1000, 1, 50,   "hash", FALSE, FALSE),
@@ -65,5 +77,5 @@ Case(i) ==
    \* the checksum gc prints for each planned point (informative; the judge recomputes it)
    sums |-> [k \in 1 .. Len(pts) |-> Checksum(p.kind, W, M, p.base, p.step, p.mod, pts[k])]]
 Cases == [i \in 1 .. Len(Plan) |-> Case(i)]
-ASSUME ModelPaths # "builder" \/ ndJsonSerialize("cases.ndjson", Cases)
+ASSUME Main => ndJsonSerialize("cases.ndjson", Cases)
 =============================================================================
